@@ -1,8 +1,10 @@
 // C08 correspondence harness: a REAL aggregator block.Manager (NewManager on an in-memory datastore, real
 // store, real signer, real publishBlockInternal) with config.Node.MaxPendingHeadersAndData = L is driven
 // through histories of
+//
 //   - block production attempts (m.VerifPublishBlock; the scripted sequencer hands out an empty or a
 //     non-empty batch),
+//
 //   - header / data submission iterations: in cases with Loop = true ONE TICK OF THE REAL LOOP — the exported
 //     HeaderSubmissionLoop / DataSubmissionLoop is started as the node starts it (own goroutine, its own ticker on
 //     config.DA.BlockTime, virtual time), serves its first tick completely (whatever the loop does before, instead
@@ -17,9 +19,13 @@
 //     at a restart, where the new process starts its own): a loop function that RETURNS while the node runs
 //     serves no further tick, nobody else does its work, and the oracles below see what that does to production;
 //     whether each loop function is still running is reported per item and compared with Model/ThrottleLoop.v,
+//
 //   - node configuration per case: config.Node.LazyMode on / off, MaxPendingHeadersAndData 1..10 (and 255..1000),
+//
 //   - blocks whose transactions weigh 1 KB .. 1.9 MB (the DA double takes blobs up to 1,974,272 bytes),
+//
 //   - restarts (NewManager on the same datastore),
+//
 //   - INTERLEAVED production attempts (item "produce_i"): the store handed to the Manager is wrapped; at the k-th
 //     store call publishBlockInternal makes (Height() of numPendingHeaders / numPendingData / getPending, the
 //     GetBlockData fetches of numWaitingData, the SetMetadata of its watermark step, and every store call of
@@ -27,6 +33,12 @@
 //     the call proceeds — an interleaving of the aggregation goroutine with the submission loops that the Go
 //     scheduler is free to pick.  The point at which each iteration ran is classified from the call stack (which
 //     function of block/ is reading) and reported to the model as a ThrottleConc.sched,
+//
+//   - LAZY-LOOP stream (genLazy / runLazyCase): the blocks are produced by the REAL Manager.AggregationLoop in lazy mode
+//     on its own two timers (virtual time); the history only lets time pass and places submission iterations and
+//     transaction announcements; every call the loop makes of publishBlock is recorded (VerifSetPublishBlock wraps the
+//     real publishBlockInternal) and compared with Model/ThrottleLazy.v; oracle: with fewer than L blocks waiting the
+//     loop produces by itself within a lazy interval + a block time (no transaction needed),
 //
 // against a scripted DA double that answers truthfully (accept k of n | failure; script end = the DA layer
 // answers "context canceled" — context.Canceled, what the DA client reports when the remote DA node drops a
@@ -88,6 +100,7 @@ type Item struct {
 	P  int       `json:"p,omitempty"`  // produce, produce_i with NE: 0 = a fresh transaction list never seen before, k >= 1 = the k-th list of a small fixed pool (the SAME transactions as every other block with that k)
 	SC []Outcome `json:"sc,omitempty"` // headers / data: DA answers, then cancellation
 	At []Inject  `json:"at,omitempty"` // produce_i: submission iterations run inside the attempt
+	Ms int       `json:"ms,omitempty"` // wait (lazy-loop stream): virtual milliseconds to let pass (a multiple of 500)
 }
 
 // Inject: at the K-th store call (from 0) the production attempt makes, run these submission iterations, then let
@@ -107,17 +120,20 @@ type Replay struct {
 	Case    int    `json:"case"`
 	Init    uint64 `json:"init"`
 	Limit   uint64 `json:"limit"`
-	Lazy    bool   `json:"lazy,omitempty"` // config.Node.LazyMode
-	Loop    bool   `json:"loop,omitempty"` // submission iterations = one tick of the REAL HeaderSubmissionLoop / DataSubmissionLoop (else: the loop body through the hooks)
-	Life    bool   `json:"life,omitempty"` // with Loop: the two loop functions are started ONCE per process (as node/full.go does) and the same two goroutines serve every tick of the history (else: a fresh goroutine per tick)
+	Lazy    bool   `json:"lazy,omitempty"`  // config.Node.LazyMode
+	Loop    bool   `json:"loop,omitempty"`  // submission iterations = one tick of the REAL HeaderSubmissionLoop / DataSubmissionLoop (else: the loop body through the hooks)
+	Life    bool   `json:"life,omitempty"`  // with Loop: the two loop functions are started ONCE per process (as node/full.go does) and the same two goroutines serve every tick of the history (else: a fresh goroutine per tick)
+	Agg     bool   `json:"agg,omitempty"`   // lazy-loop stream: the REAL AggregationLoop (lazy mode) produces the blocks on its own timers; History = wait / headers / data / notify
+	LiMs    int    `json:"li_ms,omitempty"` // with Agg: config.Node.LazyBlockInterval in ms (block time = 1000 ms)
 	History []Item `json:"history"`
 }
 
 // node configuration of a case beyond initial height and limit
 type caseOpt struct {
-	lazy bool // config.Node.LazyMode
-	loop bool // drive the real submission loops, one tick per iteration
-	life bool // … as the two long-lived goroutines of the process (started at process start, stopped at restart)
+	lazy bool          // config.Node.LazyMode
+	loop bool          // drive the real submission loops, one tick per iteration
+	life bool          // … as the two long-lived goroutines of the process (started at process start, stopped at restart)
+	li   time.Duration // config.Node.LazyBlockInterval (0 = the default)
 }
 
 // daMaxBlob: what the DA double takes in one blob (the default of local-da / the jsonrpc client: 64*64*482)
@@ -676,6 +692,78 @@ func genOutage(r *rand.Rand) (uint64, uint64, []Item) {
 	return init, limit, h
 }
 
+// lazy-loop stream: blocks are produced by the REAL AggregationLoop in lazy mode on its own two timers (block time
+// 1000 ms, lazy interval 1500 / 2500 / 3500 ms: no timer instant is a multiple of both), the history only lets
+// virtual time pass and places submission iterations (through the hooks; against a DA layer that accepts, takes one
+// blob, or answers "context canceled" — nothing that sleeps) and transaction announcements (the sequencer gets
+// transactions and Manager.NotifyNewTransactions is called, as the reaper does) at instants strictly between timer
+// instants.  Shape: some healthy rounds; then a DA OUTAGE (no iteration gets anything accepted) long enough that the
+// idle chain runs into the limit and the loop's attempts are refused, mostly WITHOUT any announcement (the idle
+// chain the property names); then the DA layer is back (one header + one data iteration accepted) and the chain is
+// left alone for more than a lazy interval + a block time: the loop must call publishBlock again by itself and
+// produce.  1..2 such outages per case; sometimes an announcement after the judged wait.
+func genLazy(r *rand.Rand) (uint64, uint64, int, []Item) {
+	init := []uint64{1, 1, 2, 5}[r.Intn(4)]
+	limit := []uint64{1, 2, 3, 1, 2, 4}[r.Intn(6)]
+	li := []int{1500, 2500, 3500}[r.Intn(3)]
+	busy := r.Intn(3) == 0 // announcements also during the outage
+	var h []Item
+	wait := func(ms int) { h = append(h, Item{T: "wait", Ms: ms}) }
+	pair := func() {
+		if r.Intn(2) == 0 {
+			h = append(h, Item{T: "headers", SC: acceptAll()}, Item{T: "data", SC: acceptAll()})
+		} else {
+			h = append(h, Item{T: "data", SC: acceptAll()}, Item{T: "headers", SC: acceptAll()})
+		}
+	}
+	for j, k := 0, r.Intn(4); j < k; j++ { // healthy
+		wait(500 * (1 + r.Intn(2*li/500)))
+		if r.Intn(3) == 0 {
+			h = append(h, Item{T: "notify"})
+			wait(500 * (1 + r.Intn(4)))
+		}
+		if r.Intn(3) > 0 {
+			pair()
+		}
+	}
+	for seg, nseg := 0, 1+r.Intn(2); seg < nseg; seg++ {
+		// the outage: (L+1 .. L+3) lazy intervals in 1..3 stretches
+		total := (int(limit) + 1 + r.Intn(3)) * li
+		parts := 1 + r.Intn(3)
+		for q := 0; q < parts; q++ {
+			ms := total / parts / 500 * 500
+			if ms < 500 {
+				ms = 500
+			}
+			wait(ms)
+			switch r.Intn(4) {
+			case 0:
+				h = append(h, Item{T: "headers"}) // "context canceled" at once
+			case 1:
+				h = append(h, Item{T: "data"})
+			case 2:
+				if r.Intn(2) == 0 {
+					h = append(h, Item{T: "headers", SC: []Outcome{{O: "accept", K: 1}}}) // one blob, then "context canceled"
+				}
+			}
+			if busy && r.Intn(2) == 0 {
+				h = append(h, Item{T: "notify"})
+			}
+		}
+		wait(li / 500 * 500) // one more lazy interval: an attempt at the limit
+		// the DA layer is back
+		pair()
+		wait(li + 1000 + 500*(1+r.Intn(4)))
+		if r.Intn(3) == 0 {
+			h = append(h, Item{T: "notify"})
+			wait(500 * (2 + r.Intn(4)))
+			pair()
+			wait(li + 1500)
+		}
+	}
+	return init, limit, li, h
+}
+
 // ---- doubles -----------------------------------------------------------------------------------
 
 type seqDouble struct {
@@ -894,6 +982,9 @@ func newWorld(r *rand.Rand, init, limit uint64, opt caseOpt, rootDir string) (*w
 	w.cfg.Node.LazyMode = opt.lazy
 	w.cfg.Node.BlockTime.Duration = time.Second
 	w.cfg.DA.BlockTime.Duration = time.Second
+	if opt.li > 0 {
+		w.cfg.Node.LazyBlockInterval.Duration = opt.li
+	}
 	w.cfg.DA.MempoolTTL = 2
 	w.kv = crashds.New()
 	w.da = &daDouble{accepted: map[string][][]byte{}}
@@ -1491,27 +1582,30 @@ type itemOut struct {
 }
 
 type caseResult struct {
-	outs       []itemOut
-	chain      []bool // has transactions, from the initial height on
-	viol, what []string
-	err        error
-	hacc, dacc []uint64
-	height     uint64
-	ncalls     int
-	nRefused   int
-	nExhausted int
-	nProduced  int
-	nRepeat    int  // blocks whose transaction list equals that of an earlier block of the chain
-	stale      bool // an interleaved attempt was refused on a count that an iteration inside it made out of date
-	nStale     int
-	nInterRef  int
-	nInterProd int
-	points     map[string]int // where interleaved iterations ran
-	nTicks     int            // submission iterations served by the real loops
-	nLifeTicks int            // … of them by the long-lived loop goroutines of the process
-	nUnserved  int            // ticks nobody served (the loop function had returned)
-	nCancelAns int            // DA requests answered "context canceled"
-	sizes      map[string]int // DA requests by the size of their largest blob
+	outs        []itemOut
+	chain       []bool // has transactions, from the initial height on
+	viol, what  []string
+	err         error
+	hacc, dacc  []uint64
+	height      uint64
+	ncalls      int
+	nRefused    int
+	nExhausted  int
+	nProduced   int
+	nRepeat     int  // blocks whose transaction list equals that of an earlier block of the chain
+	stale       bool // an interleaved attempt was refused on a count that an iteration inside it made out of date
+	nStale      int
+	nInterRef   int
+	nInterProd  int
+	points      map[string]int // where interleaved iterations ran
+	nTicks      int            // submission iterations served by the real loops
+	nLifeTicks  int            // … of them by the long-lived loop goroutines of the process
+	nUnserved   int            // ticks nobody served (the loop function had returned)
+	nCancelAns  int            // DA requests answered "context canceled"
+	sizes       map[string]int // DA requests by the size of their largest blob
+	latts       []lazyAtt      // lazy-loop stream: every call the aggregation loop made of publishBlock
+	lazyH       uint64         // … observed up to this instant (ms after genesis time)
+	nLazyJudged int            // … stretches on which the no-deadlock oracle was evaluated
 }
 
 func (r *caseResult) sizeClass(n int) {
@@ -1932,6 +2026,193 @@ func runBubble(t *testing.T, seed int64, c int, init, limit uint64, opt caseOpt,
 	return res
 }
 
+// ---- lazy-loop stream: the real AggregationLoop produces the blocks --------------------------------------------
+
+type lazyAtt struct {
+	ms       uint64 // instant of the call of publishBlock, ms after genesis time
+	produced bool
+	height   uint64
+}
+
+const lazyBT = 1000 // block time of the lazy-loop stream, ms
+
+func runLazyCase(seed int64, c int, init, limit uint64, liMs int, hist []Item, rootDir string) (res *caseResult) {
+	res = &caseResult{}
+	defer func() {
+		if x := recover(); x != nil {
+			res.fail("panic", fmt.Sprint(x))
+		}
+	}()
+	r := rand.New(rand.NewSource(seed*7919 + int64(c)*104729 + 8))
+	_ = os.RemoveAll(rootDir)
+	res.points = map[string]int{}
+	w, err := newWorld(r, init, limit, caseOpt{lazy: true, li: time.Duration(liMs) * time.Millisecond}, rootDir)
+	if err != nil {
+		res.err = err
+		return
+	}
+	w.res = res
+	S := w.gen.GenesisDAStartTime
+	now := func() uint64 { return uint64(time.Since(S) / time.Millisecond) }
+	var mu sync.Mutex
+	// every call the aggregation loop makes of publishBlock (the real publishBlockInternal runs behind it)
+	w.m.VerifSetPublishBlock(func(ctx context.Context) error {
+		before := w.height()
+		t := now()
+		err := w.m.VerifPublishBlock(ctx)
+		h := w.height()
+		mu.Lock()
+		defer mu.Unlock()
+		res.latts = append(res.latts, lazyAtt{ms: t, produced: h == before+1, height: h})
+		if h == before+1 {
+			res.nProduced++
+			res.chain = append(res.chain, w.nonEmpty(h))
+		} else if err == nil && ctx.Err() == nil {
+			res.nRefused++
+			// ---- oracle: a refusal is justified only by L committed blocks still waiting for the DA layer
+			if nwait, first := w.waiting(); nwait < limit || limit == 0 {
+				res.fail("refused-with-fewer-than-limit-blocks-waiting", fmt.Sprintf("lazy loop, limit %d, initial height %d, height %d, instant %d ms: production refused while only %d committed block(s) wait for the DA layer (first waiting: %d)", limit, init, before, t, nwait, first))
+			}
+		}
+		return err
+	})
+	ctx, cancel := context.WithCancel(w.ctx)
+	errCh := make(chan error, 1)
+	done := make(chan struct{})
+	go func() {
+		defer close(done)
+		w.m.AggregationLoop(ctx, errCh)
+	}()
+	defer func() {
+		cancel()
+		<-done
+	}()
+	cursor := uint64(lazyBT + 250) // the loop's first select is at genesis time + block time
+	sleepUntil := func(ms uint64) {
+		if d := time.Until(S.Add(time.Duration(ms) * time.Millisecond)); d > 0 {
+			time.Sleep(d)
+		}
+		synctest.Wait()
+	}
+	sleepUntil(cursor)
+	obs := func(io *itemOut) {
+		io.height = w.height()
+		io.wh, io.wd = w.m.VerifLastSubmittedHeaderHeight(), w.m.VerifLastSubmittedDataHeight()
+		io.ph, io.pd = w.persisted("h"), w.persisted("d")
+		res.outs = append(res.outs, *io)
+	}
+	txsWaiting := false
+	for _, it := range hist {
+		switch it.T {
+		case "wait":
+			if it.Ms <= 0 {
+				continue
+			}
+			T, D := cursor, uint64(it.Ms)
+			h0 := w.height()
+			nwait, _ := w.waiting()
+			mu.Lock()
+			n0 := len(res.latts)
+			mu.Unlock()
+			cursor += D
+			sleepUntil(cursor)
+			// ---- oracle, no deadlock in lazy mode: fewer than L committed blocks wait for the DA layer and nothing
+			// else happens for a lazy interval + a block time => the loop has produced a block by itself
+			bound := uint64(liMs + lazyBT)
+			if (limit == 0 || nwait < limit) && D >= bound {
+				ok := false
+				mu.Lock()
+				for _, a := range res.latts[n0:] {
+					if a.produced && a.ms <= T+bound {
+						ok = true
+					}
+				}
+				natt := len(res.latts) - n0
+				mu.Unlock()
+				res.nLazyJudged++
+				if !ok {
+					sig := "lazy-loop-stopped-producing-although-fewer-than-limit-blocks-wait"
+					if !txsWaiting {
+						sig += ":idle-chain"
+					}
+					res.fail(sig, fmt.Sprintf("lazy mode (block time %d ms, lazy interval %d ms), limit %d, initial height %d: at %d ms only %d committed block(s) waited for the DA layer (height %d); during the following %d ms, with nothing else happening, the aggregation loop called publishBlock %d time(s) and produced no block by %d ms (height now %d)", lazyBT, liMs, limit, init, T, nwait, h0, D, natt, T+bound, w.height()))
+				}
+			}
+		case "headers", "data":
+			io := itemOut{coqItem: fmt.Sprintf("(%s, %s)", vgen.N(cursor), map[string]string{"headers": "LHeaders ", "data": "LData "}[it.T]+scriptCoq(it.SC))}
+			t0 := time.Now()
+			io.res, io.calls = w.runSub(it.T, it.SC)
+			if !time.Now().Equal(t0) {
+				res.err = fmt.Errorf("lazy-loop stream: a submission iteration took virtual time (%v)", time.Since(t0))
+				return
+			}
+			obs(&io)
+		case "notify":
+			n := 1 + r.Intn(3)
+			var txs [][]byte
+			for j := 0; j < n; j++ {
+				tx := make([]byte, 1+r.Intn(24))
+				r.Read(tx)
+				txs = append(txs, tx)
+			}
+			w.seq.mu.Lock()
+			w.seq.next = txs
+			w.seq.mu.Unlock()
+			txsWaiting = true
+			w.m.NotifyNewTransactions()
+			synctest.Wait()
+			io := itemOut{coqItem: fmt.Sprintf("(%s, LNotify)", vgen.N(cursor))}
+			obs(&io)
+		}
+		if res.err != nil {
+			return
+		}
+		w.seq.mu.Lock()
+		txsWaiting = txsWaiting && w.seq.next != nil
+		w.seq.mu.Unlock()
+	}
+	select {
+	case e := <-errCh:
+		res.fail("aggregation-loop-ended-with-error", fmt.Sprint(e))
+	default:
+	}
+	res.lazyH = cursor
+	res.height = w.height()
+	res.ncalls = len(w.da.calls)
+	res.nCancelAns = w.da.ncancel
+	for _, c := range w.da.calls {
+		for i := 0; i < c.accepted; i++ {
+			if c.kind == "d" {
+				res.dacc = append(res.dacc, c.heights[i])
+			} else {
+				res.hacc = append(res.hacc, c.heights[i])
+			}
+		}
+	}
+	// the limit is enforced
+	if limit != 0 {
+		hs := w.acceptedSet("h")
+		n := uint64(0)
+		for h := w.gen.InitialHeight; h <= w.height(); h++ {
+			if !hs[h] {
+				n++
+			}
+		}
+		if n > limit {
+			res.fail("limit-not-enforced", fmt.Sprintf("lazy loop, limit %d: %d committed blocks have no header on the DA layer (height %d)", limit, n, w.height()))
+		}
+	}
+	return
+}
+
+func runLazyBubble(t *testing.T, seed int64, c int, init, limit uint64, liMs int, hist []Item, rootDir string) *caseResult {
+	var res *caseResult
+	synctest.Test(t, func(t *testing.T) {
+		res = runLazyCase(seed, c, init, limit, liMs, hist, rootDir)
+	})
+	return res
+}
+
 func hasSig(r *caseResult, sig string) bool {
 	for _, s := range r.viol {
 		if s == sig {
@@ -1982,6 +2263,8 @@ func TestVerif(t *testing.T) {
 		repeat      bool
 		sizes       bool
 		outage      bool
+		lazyloop    bool
+		liMs        int
 	}
 	var jobs []job
 	if e.Replay != "" {
@@ -1989,7 +2272,7 @@ func TestVerif(t *testing.T) {
 		if err := vgen.LoadReplay(e.Replay, &rp); err != nil {
 			t.Fatal(err)
 		}
-		jobs = append(jobs, job{seed: rp.Seed, c: rp.Case, init: rp.Init, limit: rp.Limit, hist: rp.History, opt: caseOpt{lazy: rp.Lazy, loop: rp.Loop || rp.Life, life: rp.Life}})
+		jobs = append(jobs, job{seed: rp.Seed, c: rp.Case, init: rp.Init, limit: rp.Limit, hist: rp.History, opt: caseOpt{lazy: rp.Lazy, loop: rp.Loop || rp.Life, life: rp.Life}, lazyloop: rp.Agg, liMs: rp.LiMs})
 	} else {
 		files, _ := filepath.Glob("../corpus/C08/*.json")
 		if os.Getenv("VERIF_NO_CORPUS") != "" {
@@ -1998,7 +2281,7 @@ func TestVerif(t *testing.T) {
 		for _, f := range files {
 			var rp Replay
 			if vgen.LoadReplay(f, &rp) == nil && rp.History != nil {
-				jobs = append(jobs, job{seed: rp.Seed, c: rp.Case, init: rp.Init, limit: rp.Limit, hist: rp.History, opt: caseOpt{lazy: rp.Lazy, loop: rp.Loop || rp.Life, life: rp.Life}})
+				jobs = append(jobs, job{seed: rp.Seed, c: rp.Case, init: rp.Init, limit: rp.Limit, hist: rp.History, opt: caseOpt{lazy: rp.Lazy, loop: rp.Loop || rp.Life, life: rp.Life}, lazyloop: rp.Agg, liMs: rp.LiMs})
 			}
 		}
 		// the size-boundary stream: 2 cases per run (quick), 3 per shard (thorough)
@@ -2025,6 +2308,10 @@ func TestVerif(t *testing.T) {
 		for c := 0; c < e.N/10; c++ {
 			jobs = append(jobs, job{seed: e.Seed, c: 5000000 + c, outage: true})
 		}
+		// the lazy-loop stream (the real AggregationLoop in lazy mode produces the blocks): N/10 cases on top
+		for c := 0; c < e.N/10; c++ {
+			jobs = append(jobs, job{seed: e.Seed, c: 6000000 + c, lazyloop: true})
+		}
 		for c := 0; c < e.N; c++ {
 			jobs = append(jobs, job{seed: e.Seed, c: c})
 		}
@@ -2034,10 +2321,77 @@ func TestVerif(t *testing.T) {
 		maxLen = 40
 	}
 	var cases, defsAll []string
+	var lcases, ldefs []string
 	distinct := map[string]bool{}
 	shrunk := map[string]bool{}
 	for ji, j := range jobs {
 		init, limit, hist, opt := j.init, j.limit, j.hist, j.opt
+		if j.lazyloop {
+			liMs := j.liMs
+			if hist == nil {
+				init, limit, liMs, hist = genLazy(caseRng(j.seed, j.c))
+			}
+			cr := runLazyBubble(t, j.seed, j.c, init, limit, liMs, hist, rootDir)
+			if cr.err != nil {
+				t.Fatalf("harness error (seed %d case %d): %v", j.seed, j.c, cr.err)
+			}
+			res.Evaluations++
+			res.Count("stream:lazy-loop")
+			res.Count(fmt.Sprintf("initial-height:%d", init))
+			res.Count(fmt.Sprintf("limit:%d", limit))
+			res.Count("mode:lazy")
+			res.Count(fmt.Sprintf("lazy-loop:lazy-interval-ms:%d", liMs))
+			for _, it := range hist {
+				res.Count("item:" + it.T)
+			}
+			for _, b := range cr.chain {
+				res.Count(map[bool]string{true: "block:with-txs", false: "block:empty"}[b])
+			}
+			res.Distribution["da-calls"] += cr.ncalls
+			res.Distribution["produce:refused"] += cr.nRefused
+			res.Distribution["produce:produced"] += cr.nProduced
+			res.Distribution["lazy-loop:publishBlock-called-by-the-loop"] += len(cr.latts)
+			res.Distribution["lazy-loop:refused"] += cr.nRefused
+			res.Distribution["lazy-loop:quiet-stretch-judged-for-resumption"] += cr.nLazyJudged
+			if cr.nRefused > 0 && cr.nLazyJudged > 0 {
+				res.Count("lazy-loop:case-with-refusal-and-judged-stretch")
+			}
+			var evs, outs, atts, chain []string
+			for _, o := range cr.outs {
+				evs = append(evs, o.coqItem)
+				outs = append(outs, fmt.Sprintf("mk_obs %s %s %s %s %s %s %s", vgen.N(uint64(o.res)), callsCoq(o.calls), vgen.N(o.height), vgen.N(o.wh), vgen.N(o.wd), vgen.N(o.ph), vgen.N(o.pd)))
+			}
+			for _, a := range cr.latts {
+				atts = append(atts, fmt.Sprintf("(%s, (%s, %s))", vgen.N(a.ms), vgen.Bool(a.produced), vgen.N(a.height)))
+			}
+			for _, b := range cr.chain {
+				chain = append(chain, vgen.Bool(b))
+			}
+			if cr.nProduced > 0 && cr.nRefused > 0 && cr.ncalls > 0 {
+				distinct[fmt.Sprintf("lazy|%d|%d|%d|%s", init, limit, liMs, strings.Join(evs, ";"))] = true
+			}
+			for vi, sig := range cr.viol {
+				fails := func(h []Item) bool {
+					if len(h) == 0 {
+						return false
+					}
+					r2 := runLazyBubble(t, j.seed, j.c, init, limit, liMs, h, rootDir)
+					return r2.err == nil && hasSig(r2, sig)
+				}
+				sh := hist
+				if !shrunk[sig] {
+					shrunk[sig] = true
+					sh = vgen.Shrink(hist, fails)
+				}
+				res.Violations = append(res.Violations, vgen.Violation{Signature: sig, What: cr.what[vi], Case: ji,
+					Replay: Replay{Seed: j.seed, Case: j.c, Init: init, Limit: limit, Lazy: true, Agg: true, LiMs: liMs, History: sh}})
+			}
+			ldefs = append(ldefs, fmt.Sprintf("Module C%d.\nDefinition c : lcase := {| lc_idx := %s; lc_init := %s; lc_limit := %s; lc_bt := %s; lc_li := %s;\n lc_evs := %s;\n lc_H := %s;\n lc_outs := %s;\n lc_atts := %s;\n lc_chain := %s; lc_hacc := %s; lc_dacc := %s |}.\nEnd C%d.",
+				ji, vgen.N(uint64(ji)), vgen.N(init), vgen.N(limit), vgen.N(lazyBT), vgen.N(uint64(liMs)), vgen.List(evs), vgen.N(cr.lazyH), vgen.List(outs), vgen.List(atts), vgen.List(chain), nlist(cr.hacc), nlist(cr.dacc), ji))
+			lcases = append(lcases, fmt.Sprintf("C%d.c", ji))
+			res.Replays[fmt.Sprint(ji)] = Replay{Seed: j.seed, Case: j.c, Init: init, Limit: limit, Lazy: true, Agg: true, LiMs: liMs, History: hist}
+			continue
+		}
 		if hist == nil {
 			// mode of the node and of the harness: from a stream of their own, so that the histories do not depend on them
 			opt = genOpt(rand.New(rand.NewSource(j.seed*999983 + int64(j.c)*31 + 17)))
@@ -2186,14 +2540,20 @@ func TestVerif(t *testing.T) {
 		}
 	}
 	res.Distinct = len(distinct)
-	res.Rule = "real aggregator Manager (NewManager, real store/signer/publishBlockInternal) with MaxPendingHeadersAndData L in 1..10 and initial height in {1 (3/7), 2, 5, 12, 1000}; block mix per case: all-empty, all non-empty, 50% or 25% non-empty (the block at the initial height is always the stored genesis block, empty); histories of 4..maxLen items: bursts of 1..L+1 production attempts, single header / data submission iterations through the hooks (body of HeaderSubmissionLoop / DataSubmissionLoop), restarts (NewManager on the same datastore); every DA call answered truthfully from a script: accept all (40%), outage of 1..5 answers then acceptance, outage of 30..65 answers (> maxSubmitAttempts), outage until the context ends, acceptance of 1..3 blobs at a time, context cancelled at once; 80% of histories end with 2..2L+3 rounds of (header iteration, data iteration in either order against an accepting DA layer, then one production attempt) on which resumption / no-deadlock is judged; after every such pair of iterations no committed block may be left waiting; refusal-justified and limit-enforced are judged at every production attempt; CONFIGURATION per case, drawn independently of the history: config.Node.LazyMode on / off (1/2 each), and how a submission iteration is run (1/2 each): ONE TICK OF THE REAL HeaderSubmissionLoop / DataSubmissionLoop (the exported loop function started in its own goroutine with its own ticker, virtual time; it serves its first tick completely — all attempts, all backoff sleeps — and is ended when it calls isEmpty() for the second time; result class from what the loop did: read the pending range? reached the DA layer? logged an error itself?) or the loop body through the verif hooks; of the cases on the real loops, half (and every case of the DA-outage stream) run with LONG-LIVED loops: HeaderSubmissionLoop and DataSubmissionLoop are started once per process exactly as node/full.go starts them, the same two goroutines serve every tick of the history (parked in between at the isEmpty() read that begins an iteration, reached on their own ticker), a restart cancels their context and the new process starts its own; a loop function that has returned serves no tick (result class 5) and nobody does its work; per item the harness reports whether each loop function is still running (compared with Model/ThrottleLoop.v: always); plus a DA-OUTAGE stream of N/10 cases (long-lived loops, limit 1..5, initial height 1/2/5, block mix 100/70/40/0 % with transactions): some blocks with the loops keeping up or not, then 1..2 outages of finite length spanning 1..4 ticks of each loop, one failure kind per outage (timeout / mempool / too big / sequence / generic), every tick of the outage ending with the iteration giving up after 30..34 failures or with the DA layer answering 'context canceled' (at once or after 1..4 failures; the node's own context is alive), production attempted meanwhile up to and at the limit, a restart now and then, then 2..L+2 rounds against the accepting DA layer (both ticks in either order, one attempt) judged by the same oracles; limits of the general stream: every value 1..10 (1, 2, 3, 10 twice as often); plus a BLOB-SIZE stream of N/10 cases, always on the real loops: limit 1..10, lazy or normal, blocks whose transactions weigh 1 KB .. 1.9 MB (40% log-uniform over the whole range, 30% within 4 KB of 64 KiB / 128 KiB / 256 KiB / 512 KiB / 1 MiB / 1.5 MiB / 100 000 / 250 000 / 500 000 / 750 000 / 1 000 000 / 1 250 000 / 1 500 000 / 1 750 000 / 1 900 000, 30% uniform in 1.0 .. 1.9 MB; 1..3 transactions; the DA double takes blobs up to 1 974 272 bytes), up to 4 such blocks per case with empty blocks in between, the data loop meeting a DA layer that takes one blob at a time / fails 1..3 times / fails 30 times, then a sized block followed by L-1 more blocks with transactions and 2..4 rounds — same model comparison (blob heights of EVERY DA request, watermarks) and oracles, plus: no request without a blob (empty-da-request); plus a size-boundary stream (2 cases per run, 3 per thorough shard): limit in {255,256,257,300,1000}, idle stretches of 255/256/257/600 attempts without transactions in a row (run-length item IProduceEmptyN, expanded inside Coq) before / between blocks with transactions, DA layer healthy, 3..5 closing rounds, same oracles; INTERLEAVED attempts (item produce_i: 1/8 of the attempts of the general histories, plus an interleaving stream of N/3 cases: limit in 1..10, bursts of L-1..L+1 blocks with the header loop keeping up and the data loop lagging, then 1..3 attempts with submission iterations inside, restarts, closing rounds): the store handed to the Manager is wrapped and at chosen store calls of publishBlockInternal (reads of numPendingHeaders / numPendingData / getPending, the fetches and watermark steps of numWaitingData, the calls of block building up to SetHeight) 1..2 header / data iterations (70% against an accepting DA layer, else any script) run synchronously before the call proceeds, or a header iteration at every call of numWaitingData's window; the point is classified from the call stack and handed to the model as a ThrottleConc.sched; oracle for such an attempt: a refusal needs L blocks waiting when the attempt BEGAN (it may be out of date when it returns), a refused attempt with an accepted header and data iteration inside leaves nothing waiting, and any later refusal with fewer than L blocks waiting is reported as refused-again-after-stale-refusal; PAYLOADS: a block with transactions carries either a fresh random transaction list (1..3 txs) or, in half of the general and interleaving histories with probability 2/3 per block, one of a pool of 1..3 FIXED lists, so that blocks at different heights have equal transaction lists (equal Data.Hash / DACommitment); plus a repeated-payload stream of N/6 cases (the first three: limit 1, 2, 3 with a heartbeat transaction in every block): limit in {1,2,3}, DA layer accepting, shapes: the same list in every block with the loops running after every block or every L blocks / A, B, A and then the last L blocks all equal to A / the first list coming back after other lists and empty blocks / any mix over a pool of two lists, fresh lists and empty blocks; then optionally a restart, and a tail of rounds (both iterations against the accepting DA layer, one attempt): an idle chain of L+2..L+3 empty blocks, or L+2 more blocks of the same list, or L+1 fresh lists, then idle; the model identifies a block by empty / non-empty only (a repeated list is a block with transactions like any other) and the same comparison and oracles apply; all in synctest bubbles (virtual time); non-trivial = at least one block produced, one refusal and one DA call; distinct = distinct (initial height, limit, model history) terms"
+	res.Rule = "real aggregator Manager (NewManager, real store/signer/publishBlockInternal) with MaxPendingHeadersAndData L in 1..10 and initial height in {1 (3/7), 2, 5, 12, 1000}; block mix per case: all-empty, all non-empty, 50% or 25% non-empty (the block at the initial height is always the stored genesis block, empty); histories of 4..maxLen items: bursts of 1..L+1 production attempts, single header / data submission iterations through the hooks (body of HeaderSubmissionLoop / DataSubmissionLoop), restarts (NewManager on the same datastore); every DA call answered truthfully from a script: accept all (40%), outage of 1..5 answers then acceptance, outage of 30..65 answers (> maxSubmitAttempts), outage until the context ends, acceptance of 1..3 blobs at a time, context cancelled at once; 80% of histories end with 2..2L+3 rounds of (header iteration, data iteration in either order against an accepting DA layer, then one production attempt) on which resumption / no-deadlock is judged; after every such pair of iterations no committed block may be left waiting; refusal-justified and limit-enforced are judged at every production attempt; CONFIGURATION per case, drawn independently of the history: config.Node.LazyMode on / off (1/2 each), and how a submission iteration is run (1/2 each): ONE TICK OF THE REAL HeaderSubmissionLoop / DataSubmissionLoop (the exported loop function started in its own goroutine with its own ticker, virtual time; it serves its first tick completely — all attempts, all backoff sleeps — and is ended when it calls isEmpty() for the second time; result class from what the loop did: read the pending range? reached the DA layer? logged an error itself?) or the loop body through the verif hooks; of the cases on the real loops, half (and every case of the DA-outage stream) run with LONG-LIVED loops: HeaderSubmissionLoop and DataSubmissionLoop are started once per process exactly as node/full.go starts them, the same two goroutines serve every tick of the history (parked in between at the isEmpty() read that begins an iteration, reached on their own ticker), a restart cancels their context and the new process starts its own; a loop function that has returned serves no tick (result class 5) and nobody does its work; per item the harness reports whether each loop function is still running (compared with Model/ThrottleLoop.v: always); plus a DA-OUTAGE stream of N/10 cases (long-lived loops, limit 1..5, initial height 1/2/5, block mix 100/70/40/0 % with transactions): some blocks with the loops keeping up or not, then 1..2 outages of finite length spanning 1..4 ticks of each loop, one failure kind per outage (timeout / mempool / too big / sequence / generic), every tick of the outage ending with the iteration giving up after 30..34 failures or with the DA layer answering 'context canceled' (at once or after 1..4 failures; the node's own context is alive), production attempted meanwhile up to and at the limit, a restart now and then, then 2..L+2 rounds against the accepting DA layer (both ticks in either order, one attempt) judged by the same oracles; limits of the general stream: every value 1..10 (1, 2, 3, 10 twice as often); plus a BLOB-SIZE stream of N/10 cases, always on the real loops: limit 1..10, lazy or normal, blocks whose transactions weigh 1 KB .. 1.9 MB (40% log-uniform over the whole range, 30% within 4 KB of 64 KiB / 128 KiB / 256 KiB / 512 KiB / 1 MiB / 1.5 MiB / 100 000 / 250 000 / 500 000 / 750 000 / 1 000 000 / 1 250 000 / 1 500 000 / 1 750 000 / 1 900 000, 30% uniform in 1.0 .. 1.9 MB; 1..3 transactions; the DA double takes blobs up to 1 974 272 bytes), up to 4 such blocks per case with empty blocks in between, the data loop meeting a DA layer that takes one blob at a time / fails 1..3 times / fails 30 times, then a sized block followed by L-1 more blocks with transactions and 2..4 rounds — same model comparison (blob heights of EVERY DA request, watermarks) and oracles, plus: no request without a blob (empty-da-request); plus a size-boundary stream (2 cases per run, 3 per thorough shard): limit in {255,256,257,300,1000}, idle stretches of 255/256/257/600 attempts without transactions in a row (run-length item IProduceEmptyN, expanded inside Coq) before / between blocks with transactions, DA layer healthy, 3..5 closing rounds, same oracles; INTERLEAVED attempts (item produce_i: 1/8 of the attempts of the general histories, plus an interleaving stream of N/3 cases: limit in 1..10, bursts of L-1..L+1 blocks with the header loop keeping up and the data loop lagging, then 1..3 attempts with submission iterations inside, restarts, closing rounds): the store handed to the Manager is wrapped and at chosen store calls of publishBlockInternal (reads of numPendingHeaders / numPendingData / getPending, the fetches and watermark steps of numWaitingData, the calls of block building up to SetHeight) 1..2 header / data iterations (70% against an accepting DA layer, else any script) run synchronously before the call proceeds, or a header iteration at every call of numWaitingData's window; the point is classified from the call stack and handed to the model as a ThrottleConc.sched; oracle for such an attempt: a refusal needs L blocks waiting when the attempt BEGAN (it may be out of date when it returns), a refused attempt with an accepted header and data iteration inside leaves nothing waiting, and any later refusal with fewer than L blocks waiting is reported as refused-again-after-stale-refusal; PAYLOADS: a block with transactions carries either a fresh random transaction list (1..3 txs) or, in half of the general and interleaving histories with probability 2/3 per block, one of a pool of 1..3 FIXED lists, so that blocks at different heights have equal transaction lists (equal Data.Hash / DACommitment); plus a repeated-payload stream of N/6 cases (the first three: limit 1, 2, 3 with a heartbeat transaction in every block): limit in {1,2,3}, DA layer accepting, shapes: the same list in every block with the loops running after every block or every L blocks / A, B, A and then the last L blocks all equal to A / the first list coming back after other lists and empty blocks / any mix over a pool of two lists, fresh lists and empty blocks; then optionally a restart, and a tail of rounds (both iterations against the accepting DA layer, one attempt): an idle chain of L+2..L+3 empty blocks, or L+2 more blocks of the same list, or L+1 fresh lists, then idle; the model identifies a block by empty / non-empty only (a repeated list is a block with transactions like any other) and the same comparison and oracles apply; plus a LAZY-LOOP stream of N/10 cases: the blocks are produced by the REAL Manager.AggregationLoop in lazy mode (own goroutine, its own lazyTimer / blockTimer, block time 1000 ms, lazy interval 1500 / 2500 / 3500 ms, real publishBlockInternal behind publishBlock) with limit 1..4 and initial height 1/2/5; the history lets virtual time pass (multiples of 500 ms, events at 250 ms mod 500: never at a timer instant) and places header / data submission iterations (through the hooks; DA answers that do not sleep: accept all, accept one blob, 'context canceled') and transaction announcements (the sequencer gets transactions + Manager.NotifyNewTransactions) at chosen instants: 0..3 healthy rounds, then 1..2 DA outages of L+1..L+3 lazy intervals during which nothing is accepted and the loop's attempts are refused at the limit (in 2/3 of the cases without any announcement: the idle chain), then one accepted header + data iteration and a quiet stretch longer than lazy interval + block time, sometimes an announcement afterwards; compared with Model/ThrottleLazy.v (second case file cases_C08_lazy.v): EVERY call the loop made of publishBlock (instant, produced / refused, height), each iteration's observation, emptiness of the blocks, accepted heights; Go oracle: whenever fewer than L committed blocks wait for the DA layer and nothing else happens for lazy interval + block time, the loop has produced a block by then; a refusal needs L blocks waiting; limit enforced; all in synctest bubbles (virtual time); non-trivial = at least one block produced, one refusal and one DA call; distinct = distinct (initial height, limit, model history) terms"
 	res.Cases = len(cases)
 	header := "From Coq Require Import NArith List Bool.\nFrom Verif Require Import Model.Throttle Model.ThrottleConc Check.ThrottleCheck."
 	path := filepath.Join(e.Out, "cases_C08.v")
 	if err := vgen.WriteCases(path, header, defsAll, "tcase", cases, "mismatches"); err != nil {
 		t.Fatal(err)
 	}
-	res.CaseFiles = []string{path}
+	lpath := filepath.Join(e.Out, "cases_C08_lazy.v")
+	lheader := "From Coq Require Import NArith List Bool.\nFrom Verif Require Import Model.Throttle Model.ThrottleLazy Check.ThrottleLazyCheck."
+	if err := vgen.WriteCases(lpath, lheader, ldefs, "lcase", lcases, "lmismatches"); err != nil {
+		t.Fatal(err)
+	}
+	res.Cases += len(lcases)
+	res.CaseFiles = []string{path, lpath}
 	if err := res.Write(e.Out); err != nil {
 		t.Fatal(err)
 	}
